@@ -23,6 +23,7 @@ import IocProofs.Lemmas.M2Examples
 import IocProofs.Lemmas.M2SucceedsConv
 import Ioc.Match
 import IocProofs.Lemmas.SemApp
+import IocProofs.Lemmas.SemMisc
 namespace Ioc.C09
 open Ioc Ioc.M2 Ioc.App
 
@@ -292,5 +293,17 @@ theorem C09_code_run_stops (fails : String → Bool) (s : String) (hs : s ∈ (S
 example : Go.run (Sem.runPrims (fun s => s == "refresh")) Progs.app_run [] [] =
     some (Sem.errA, ["initConfiguration", "initFactory", "refresh"]) :=
   (Sem.app_run_sem _).trans (by rfl)
+
+/-- the three one-line stage wrappers of App, regenerated (app.go:111-133): each calls exactly its stage — Configure.Initialize,
+    Factory.PrepareComponents, Factory.Refresh — and returns an error if and only if the stage did (`C09_code_run` is about
+    the sequence of the wrappers) -/
+theorem C09_code_stage_wrappers (fails : Bool) :
+    Go.run (Sem.stagePrims "self.Configure.Initialize" fails) Progs.app_initConfiguration [] [] =
+      some (if fails then Sem.errN else .nil, ["self.Configure.Initialize"]) ∧
+    Go.run (Sem.stagePrims "self.Factory.PrepareComponents" fails) Progs.app_initFactory [] [] =
+      some (if fails then Sem.errN else .nil, ["self.Factory.PrepareComponents"]) ∧
+    Go.run (Sem.stagePrims "self.Factory.Refresh" fails) Progs.app_refresh [] [] =
+      some (if fails then Sem.errN else .nil, ["self.Factory.Refresh"]) :=
+  Sem.stageWrappers_sem fails
 
 end Ioc.C09
